@@ -64,7 +64,11 @@ def opt_value(interp, e, fr):
     if v.kind == "none":
         return VReal(0)
     if v.kind == "opt":
-        return v.inner
+        v = v.inner
+    if v.kind == "int":
+        # a whole-number threshold is the same number: one sort for the named predicates over thresholds
+        from pyvc.ops import to_real_z
+        return VReal(to_real_z(v))
     return v
 
 
